@@ -12,7 +12,12 @@
  *   c19t <seed> <cid> <ckey> <csni> <cih> <shint> <skey> <sids> <ssni> op ...
  *   ops: C            create the client session and run both contexts until the client session is
  *                     ESTABLISHED, back in NONE, or 3000 rounds passed;  C<n>: run n rounds only
- *        qc<k> qn<k>  (only when established) send request k and run until its response or 400 rounds
+ *        qc<k> qn<k>  send request k (if the session is still coming up, libcoap waits inside
+ *                     coap_send: both contexts are serviced meanwhile), then run until its response
+ *        wc<k> wn<k>  the same, but the wait inside coap_send times out at once (the message is then
+ *                     queued if the session is not established, or, in state CSM, the session is
+ *                     declared connected without the peer's CSM)
+ *        rel          release the client session
  *        ic<hex|@req<k>>  bytes written straight to the client's TCP socket, i.e. cleartext in the
  *                     client->server stream behind whatever TLS has written so far
  *        is<...>      same in the server->client stream
@@ -74,14 +79,100 @@ ssize_t __wrap_coap_socket_write(coap_socket_t *sock, const uint8_t *data, size_
   return r;
 }
 
+static const char *nm(const coap_session_t *cs) {
+  return (cs && cs->type == COAP_SESSION_TYPE_CLIENT) ? "c" : "s";
+}
+
+/* id of a CoAP-over-TCP PDU for the trace: request k -> k, response to k -> 1000+k, CSM -> -1,
+ * anything else 0 */
+static int tcp_pdu_id(const uint8_t *b, size_t n) {
+  if (n < 2) return 0;
+  size_t lenn = b[0] >> 4, tkl = b[0] & 15, o = 1;
+  o += lenn == 13 ? 1 : lenn == 14 ? 2 : lenn == 15 ? 4 : 0;
+  if (o >= n) return 0;
+  unsigned code = b[o];
+  if (code == 0xe1) return -1;
+  (void)tkl;
+  for (size_t i = o; i + 3 < n; i++)
+    if (b[i] == 0xff && (b[i + 1] == 'Q' || b[i + 1] == 'A')) {
+      int k = 0;
+      size_t j = i + 2;
+      while (j < n && b[j] >= '0' && b[j] <= '9') k = k * 10 + (b[j++] - '0');
+      if (j < n && b[j] == ':') return b[i + 1] == 'Q' ? k : 1000 + k;
+    }
+  return 0;
+}
+
 int __real_gnutls_handshake(gnutls_session_t s);
 int __wrap_gnutls_handshake(gnutls_session_t s) {
   coap_session_t *cs = (coap_session_t *)gnutls_transport_get_ptr(s);
   int side = (cs && cs->type == COAP_SESSION_TYPE_CLIENT) ? 0 : 1;
   int r = __real_gnutls_handshake(s);
   if (r == 0) hs_ok[side]++;
-  if (r != GNUTLS_E_AGAIN) emit("%s.hs:%d", side ? "s" : "c", r);
+  emit("%s.hs:%d", side ? "s" : "c", r);
   return r;
+}
+
+ssize_t __real_gnutls_record_send(gnutls_session_t s, const void *data, size_t n);
+ssize_t __wrap_gnutls_record_send(gnutls_session_t s, const void *data, size_t n) {
+  coap_session_t *cs = (coap_session_t *)gnutls_transport_get_ptr(s);
+  ssize_t r = __real_gnutls_record_send(s, data, n);
+  if (r == (ssize_t)n) emit("%s.tx:%d:ok", nm(cs), tcp_pdu_id((const uint8_t *)data, n));
+  else emit("%s.tx:%d:%zd", nm(cs), tcp_pdu_id((const uint8_t *)data, n), r);
+  return r;
+}
+
+ssize_t __real_gnutls_record_recv(gnutls_session_t s, void *data, size_t n);
+ssize_t __wrap_gnutls_record_recv(gnutls_session_t s, void *data, size_t n) {
+  coap_session_t *cs = (coap_session_t *)gnutls_transport_get_ptr(s);
+  ssize_t r = __real_gnutls_record_recv(s, data, n);
+  if (r > 0) emit("%s.rx:ok", nm(cs));
+  else emit("%s.rx:%zd", nm(cs), r);
+  return r;
+}
+
+static coap_session_t *g_reading;
+ssize_t __real_coap_tls_read(coap_session_t *c_session, uint8_t *data, size_t data_len);
+ssize_t __wrap_coap_tls_read(coap_session_t *c_session, uint8_t *data, size_t data_len) {
+  const char *who = nm(c_session);
+  g_reading = c_session;
+  emit("%s.rd", who);
+  ssize_t r = __real_coap_tls_read(c_session, data, data_len);
+  emit("%s.rr:%d", who, r < 0 ? -1 : r > 0 ? 1 : 0);
+  return r;
+}
+
+int __real_coap_pdu_parse_opt(coap_pdu_t *pdu);
+int __wrap_coap_pdu_parse_opt(coap_pdu_t *pdu) {
+  int r = __real_coap_pdu_parse_opt(pdu);
+  if (r && g_reading) {
+    unsigned c = pdu->code;
+    int kind = c == 0xe1 ? 3 : (c == 0xe2 || c == 0xe3) ? 4 : (c == 0xe4 || c == 0xe5) ? 5
+               : (c >= 1 && c < 32) ? 1 : (c >= 64 && c < 192) ? 2 : 0;
+    emit("%s.pdu:%d", nm(g_reading), kind);
+  }
+  return r;
+}
+
+/* the wait loop of coap_client_delay_first (coap_send on a client session that is coming up) */
+static int g_in_send, g_wait_timeout, g_wait_iter;
+int __real_coap_io_process_lkd(coap_context_t *ctx, uint32_t timeout_ms);
+int __wrap_coap_io_process_lkd(coap_context_t *ctx, uint32_t timeout_ms) {
+  if (g_in_send && ctx == g_cli) {
+    if (g_wait_timeout) {
+      emit("c.wt:1");
+      return 6000;                 /* "more than the 5 s / CSM time-out went by" */
+    }
+    if (++g_wait_iter > 1500) {    /* nothing moves any more: let the wait time out */
+      emit("c.wt:1");
+      return 6000;
+    }
+    __real_coap_io_process_lkd(g_srv, COAP_IO_NO_WAIT);
+    int r = __real_coap_io_process_lkd(ctx, COAP_IO_NO_WAIT);
+    usleep(100);
+    return r < 0 ? r : 0;
+  }
+  return __real_coap_io_process_lkd(ctx, timeout_ms);
 }
 
 /* ------------------------------------------------------------------ tables / callbacks */
@@ -180,7 +271,13 @@ static coap_response_t on_resp(coap_session_t *s, const coap_pdu_t *sent, const 
 static void on_nack(coap_session_t *s, const coap_pdu_t *sent, const coap_nack_reason_t reason,
                     const coap_mid_t mid) {
   (void)mid;
-  emit("%s.nack:%s:%d", s->type == COAP_SESSION_TYPE_CLIENT ? "c" : "s", sent ? "pdu" : "anon", (int)reason);
+  if (sent) {
+    size_t len = 0;
+    const uint8_t *data = NULL;
+    coap_get_data(sent, &len, &data);
+    emit("%s.nack:%d:%d", nm(s), marker_no(data, len, 'Q'), (int)reason);
+  } else
+    emit("%s.nack:anon:%d", nm(s), (int)reason);
 }
 static int on_event(coap_session_t *s, coap_event_t e) {
   emit("%s.ev:%04x", s->type == COAP_SESSION_TYPE_CLIENT ? "c" : "s", (unsigned)e);
@@ -222,9 +319,33 @@ static void wait_rsp(int until_rsp, double ms) {
   }
 }
 
+/* white-box snapshot: state, ids in the delay queue, tls != NULL, doing_first, socket open */
+static void snapshot(const char *who, coap_session_t *s) {
+  if (!s) {
+    emit("%s.st:gone", who);
+    return;
+  }
+  char dq[512];
+  size_t o = 0;
+  dq[0] = 0;
+  for (coap_queue_t *q = s->delayqueue; q && o + 16 < sizeof(dq); q = q->next) {
+    size_t len = 0;
+    const uint8_t *data = NULL;
+    coap_get_data(q->pdu, &len, &data);
+    int k = q->pdu->code == 0xe1 ? -1 : marker_no(data, len, 'Q');
+    if (k < 0 && q->pdu->code != 0xe1) {
+      k = marker_no(data, len, 'A');
+      k = k < 0 ? 0 : 1000 + k;
+    }
+    o += (size_t)snprintf(dq + o, sizeof(dq) - o, "%s%d", o ? "." : "", k);
+  }
+  emit("%s.st:%d:%s:%d:%d:%d", who, (int)s->state, o ? dq : "-", s->tls ? 1 : 0, (int)s->doing_first,
+       coap_netif_available(s) ? 1 : 0);
+}
+
 static void rounds(int n, int until_state, int until_rsp) {
-  double end = now_ms() + 3000.0;
-  for (int i = 0; i < n || (until_state && now_ms() < end); i++) {
+  double end = now_ms() + 1200.0;
+  for (int i = 0; i < n || (until_state && g_cs && now_ms() < end); i++) {
     coap_io_process(g_srv, COAP_IO_NO_WAIT);
     coap_io_process(g_cli, COAP_IO_NO_WAIT);
     if (until_state && g_cs &&
@@ -263,6 +384,8 @@ static void run_case(void) {
   hs_ok[0] = hs_ok[1] = 0;
   n_rsp = 0;
   g_cs = g_ss = NULL;
+  g_reading = NULL;
+  g_in_send = g_wait_timeout = 0;
   if (vntok < 10) { printf("ERROR short case\n"); return; }
   if (strcmp(vtok[2], "-")) cid = hexfield(vtok[2], strlen(vtok[2]), &cidl);
   if (strcmp(vtok[3], "-")) ck = hexfield(vtok[3], strlen(vtok[3]), &ckl);
@@ -317,25 +440,32 @@ static void run_case(void) {
       if (!g_cs) emit("a.nocs");
       else if (op[1]) rounds(atoi(op + 1), 0, -1);    /* C<n>: only n rounds */
       else rounds(3000, 1, -1);
-    } else if (op[0] == 'q' && g_cs) {
-      if (g_cs->state != COAP_SESSION_STATE_ESTABLISHED) {
-        emit("a.q:skip");      /* coap_send would block inside libcoap */
-      } else {
-        int k = atoi(op + 2);
-        coap_pdu_t *p = coap_new_pdu(op[1] == 'c' ? COAP_MESSAGE_CON : COAP_MESSAGE_NON,
-                                     COAP_REQUEST_CODE_POST, g_cs);
-        uint8_t tok[8];
-        size_t tl;
-        coap_session_new_token(g_cs, &tl, tok);
-        coap_add_token(p, tl, tok);
-        coap_add_option(p, COAP_OPTION_URI_PATH, strlen(PATH), (const uint8_t *)PATH);
-        int n = snprintf((char *)buf, sizeof(buf), "Q%d:" MARK, k);
-        coap_add_data(p, (size_t)n, buf);
-        int before = n_rsp;
-        coap_mid_t m = coap_send(g_cs, p);
-        emit("a.q:%d:%d", k, (int)m);
-        wait_rsp(before, 2000.0);
-      }
+    } else if ((op[0] == 'q' || op[0] == 'w') && g_cs) {
+      int k = atoi(op + 2);
+      /* libcoap waits for a session that is coming up (coap_client_delay_first) already in
+       * coap_new_pdu (via coap_session_max_pdu_size) and again in coap_send */
+      emit("a.send:%d:%d", k, op[1] == 'c');
+      g_in_send = 1;
+      g_wait_iter = 0;
+      g_wait_timeout = op[0] == 'w';
+      coap_pdu_t *p = coap_new_pdu(op[1] == 'c' ? COAP_MESSAGE_CON : COAP_MESSAGE_NON,
+                                   COAP_REQUEST_CODE_POST, g_cs);
+      uint8_t tok[8];
+      size_t tl;
+      coap_session_new_token(g_cs, &tl, tok);
+      coap_add_token(p, tl, tok);
+      coap_add_option(p, COAP_OPTION_URI_PATH, strlen(PATH), (const uint8_t *)PATH);
+      int n = snprintf((char *)buf, sizeof(buf), "Q%d:" MARK, k);
+      coap_add_data(p, (size_t)n, buf);
+      int before = n_rsp;
+      coap_mid_t m = coap_send(g_cs, p);
+      g_in_send = 0;
+      emit("a.q:%d:%d", k, (int)m);
+      if (g_cs->state == COAP_SESSION_STATE_ESTABLISHED) wait_rsp(before, 1000.0);
+    } else if (strcmp(op, "rel") == 0 && g_cs) {
+      emit("a.rel");
+      coap_session_release(g_cs);
+      g_cs = NULL;
     } else if (op[0] == 'i' && (op[1] == 'c' || op[1] == 's')) {
       size_t n = 0;
       if (strncmp(op + 2, "@req", 4) == 0) {
@@ -369,11 +499,15 @@ static void run_case(void) {
       if (op[1]) rounds(atoi(op + 1), 0, -1);
       else rounds(3000, 1, -1);                       /* r: until established / failed */
     }
-    emit("c.st:%d s.hsok:%d c.hsok:%d", g_cs ? (int)g_cs->state : -1, hs_ok[1], hs_ok[0]);
+    snapshot("c", g_cs);
+    snapshot("s", g_ss);
   }
 out:
   emit("|end");
-  if (g_cs) coap_session_release(g_cs);
+  if (g_cs) {
+    emit("a.rel");
+    coap_session_release(g_cs);
+  }
   g_cs = NULL;
   rounds(20, 0, -1);
   if (g_cli) coap_free_context(g_cli);
